@@ -129,8 +129,8 @@ class Int32(Int):
         c = Int.classify(self, v, pc, vals)
         if c == "rej":
             for w in (sx(v, 32), v & 0xffffffff):
-                if w != v and Int.classify(self, w, pc, vals) == "ok":
-                    return "excl"
+                if w != v and Int.classify(self, w, pc, vals) != "rej":
+                    return "excl"     # "ok", or a hole (the alias is valid, but takes another form)
         return c
 
 
